@@ -128,6 +128,8 @@ FIXED = [
     # a comment where an absent optional argument would stand stays in the tree, after the macro / at the start of the body
     ("\\moo% c\nx", [("macro", "moo", [None]), ("comment", " c"), ("chars", "x")]),
     ("\\begin{eo}% c\nbody\\end{eo}", [("env", "eo", [None], [("comment", " c"), ("chars", "body")])]),
+    # whitespace between \\begin / \\end and the braced name does not change the structure
+    ("\\begin {ez}x\\end\n {ez}", [("env", "ez", [], [("chars", "x")])]),
     # an environment without a declaration of its own (unknown-environment spec) ends at the \\end of ITS name
     (r"\begin{zzz}x\end{zzz}", [("env", "zzz", [], [("chars", "x")])]),
     (r"a\begin{zzz}\mz\begin{ez}y\end{ez}\end{zzz}b", [("chars", "a"), ("env", "zzz", [], [("macro", "mz", []), ("env", "ez", [], [("chars", "y")])]), ("chars", "b")]),
